@@ -11,7 +11,9 @@ Definition erow := (row * Q)%type.     (* one evidence row: parameters, target v
 Record bo_case := {
   k_cfg : cfg;
   k_maxp : nat;
-  k_bounds : box;
+  k_names : list string;                        (* model.parameter_names = target_model.parameter_names *)
+  k_dict : bdict;                               (* the bounds dict handed to BayesianOptimization / GPyRegression, in the user's key order *)
+  k_mbounds : box;                              (* target_model.bounds *)
   k_pre : list erow;                            (* precomputed evidence *)
   k_oracle : list bool;                         (* the is_ready answers the client gave, in order *)
   k_acq_tab : list (list row);                  (* what the k-th acquire call returned *)
@@ -26,6 +28,10 @@ Record bo_case := {
   k_optlog : list bool;                         (* optimize flag of every target_model.update *)
   k_supplied : list (nat * option (list row))   (* what prepare_new_batch returned, per consumed batch *)
 }.
+
+(** the user's box in parameter order (Num/Acq.v: box_of) *)
+Definition k_bounds (k : bo_case) : box :=
+  match box_of (k_names k) (k_dict k) with Some b => b | None => [] end.
 
 Definition erow_eqb (x y : erow) : bool := row_eqb (fst x) (fst y) && Qeq_bool (snd x) (snd y).
 
@@ -66,6 +72,7 @@ Definition bo_agree (k : bo_case) : bool :=
   match bo_model k with
   | inl (s, tr) =>
       trace_eqb tr (k_trace k)
+      && box_eqb (k_bounds k) (k_mbounds k)       (* the surrogate's box is the one built by name from the dict *)
       && list_eqb erow_eqb (ev (es s)) (k_X k)
       && Z.eqb (n_ev (es s)) (k_nev k)
       && Nat.eqb (nb (es s)) (k_nbatches k)
@@ -106,6 +113,7 @@ Definition acq_answer_okb (k : bo_case) (rows : list row) : bool :=
 Definition bo_ok (k : bo_case) : bool :=
   let n := k_nbatches k in
   match trace_ok (k_maxp k) (k_trace k) with Some m => Nat.eqb m n | None => false end
+  && match box_of (k_names k) (k_dict k) with Some _ => true | None => false end
   && list_eqb erow_eqb (k_X k) (k_pre k ++ concat (firstn n (k_batches k)))
   && Nat.leb n (length (k_batches k))
   && Z.eqb (k_nev k) (c_npre (k_cfg k) + Z.of_nat (c_b (k_cfg k)) * Z.of_nat n)
@@ -141,14 +149,87 @@ Definition grad_ok (g : grad_case) : bool :=
   negb (Qle_bool (g_beta g) 0%Q) && negb (Qle_bool (g_var g) 0%Q)
   && forallb (fun ar => Qle_bool 0%Q (snd ar) && close tol (snd ar * snd ar)%Q (fst ar)) (g_sqrt g).
 
+(** ---- histories of calls on ONE LCBSC object over ONE surrogate that changes in between ----
+
+    A step is one query point.  Between steps the harness may update the surrogate with new evidence,
+    re-optimise its hyper-parameters, or call acquire.  The model has NO state across steps: the value
+    and the gradient of a step are the translated formulas on the surrogate's CURRENT predict /
+    predictive_gradients outputs (recorded at the step, straight from the surrogate).                  *)
+Record hstep := {
+  h_beta : Q; h_mean : Q; h_var : Q;           (* _beta(t); current model.predict(x, noiseless=True) *)
+  h_gmean : list Q; h_gvar : list Q;           (* current model.predictive_gradients(x), per coordinate *)
+  h_sqrt : list (Q * Q);                       (* np.sqrt: (argument, result) *)
+  h_val : option Q;                            (* evaluate(x, t) of the long-lived object (None: not called at this step) *)
+  h_grad : option (list Q);                    (* evaluate_gradient(x, t) of the long-lived object *)
+  h_fval : Q; h_fgrad : list Q;                (* the same methods of a freshly constructed LCBSC over the same surrogate *)
+  h_fd : list Q                                (* central differences of the fresh object's evaluate *)
+}.
+
+Record hist_case := {
+  hs_names : list string; hs_dict : bdict; hs_mbounds : box;
+  hs_steps : list hstep;
+  hs_acq : list (nat * list row)               (* acquire(n, t) calls of the long-lived object made along the history: n, rows *)
+}.
+
+Definition hs_bounds (h : hist_case) : box :=
+  match box_of (hs_names h) (hs_dict h) with Some b => b | None => [] end.
+
+Definition step_val (s : hstep) : Q := lcbscQ (near_q (h_sqrt s)) (h_beta s) (h_mean s) (h_var s) 0%Q.
+
+Fixpoint step_grad_go (s : hstep) (gm gv : list Q) : list Q :=
+  match gm, gv with
+  | a :: gm', b :: gv' => lcbsc_gradQ (near_q (h_sqrt s)) (h_beta s) (h_mean s) (h_var s) a b 0%Q :: step_grad_go s gm' gv'
+  | _, _ => []
+  end.
+Definition step_grad (s : hstep) : list Q := step_grad_go s (h_gmean s) (h_gvar s).
+
+(** the model of a whole history: one (value, gradient) per step, each from that step's surrogate alone *)
+Definition hist_model (steps : list hstep) : list (Q * list Q) := map (fun s => (step_val s, step_grad s)) steps.
+
+Definition closeb (a b : Q) : bool := close tol a b.
+
+(** finite differences: 2e-4 relative to |a| + |b|, 1e-6 absolute *)
+Definition fd_close (a b : Q) : bool :=
+  Qle_bool (Qabs (a - b)%Q) ((2 # 10000) * (Qabs a + Qabs b) + (1 # 1000000))%Q.
+
+Definition opt_all {X} (f : X -> bool) (o : option X) : bool := match o with None => true | Some x => f x end.
+
+Definition step_agree (s : hstep) : bool :=
+  closeb (step_val s) (h_fval s)
+  && opt_all (closeb (step_val s)) (h_val s)
+  && list_eqb closeb (step_grad s) (h_fgrad s)
+  && opt_all (list_eqb closeb (step_grad s)) (h_grad s).
+
+Definition hist_agree (h : hist_case) : bool :=
+  forallb step_agree (hs_steps h) && box_eqb (hs_bounds h) (hs_mbounds h).
+
+(** the property on the implementation's answers alone: what the long-lived object returns is what a
+    fresh object returns on the surrogate as it is NOW, its gradient is the (finite-difference)
+    derivative of the current acquisition function; and the points acquired along the way are in the
+    user's box, as many as asked *)
+Definition step_ok (s : hstep) : bool :=
+  negb (Qle_bool (h_beta s) 0%Q) && negb (Qle_bool (h_var s) 0%Q)
+  && forallb (fun ar => Qle_bool 0%Q (snd ar) && close tol (snd ar * snd ar)%Q (fst ar)) (h_sqrt s)
+  && opt_all (fun v => closeb v (h_fval s)) (h_val s)
+  && opt_all (fun g => list_eqb closeb g (h_fgrad s) && list_eqb fd_close g (h_fd s)) (h_grad s)
+  && list_eqb fd_close (h_fgrad s) (h_fd s).
+
+Definition hacq_ok (h : hist_case) (a : nat * list row) : bool :=
+  Nat.eqb (length (snd a)) (fst a) && forallb (in_box (hs_bounds h)) (snd a).
+
+Definition hist_ok (h : hist_case) : bool :=
+  match box_of (hs_names h) (hs_dict h) with Some _ => true | None => false end
+  && forallb step_ok (hs_steps h) && forallb (hacq_ok h) (hs_acq h).
+
 (** ---- one case type for the driver ---- *)
 Inductive case :=
 | CAcq (a : Acq.case)
 | CBo (k : bo_case)
-| CGrad (g : grad_case).
+| CGrad (g : grad_case)
+| CHist (h : hist_case).
 
 Definition agree (c : case) : bool :=
-  match c with CAcq a => Acq.agree a | CBo k => bo_agree k | CGrad g => grad_agree g end.
+  match c with CAcq a => Acq.agree a | CBo k => bo_agree k | CGrad g => grad_agree g | CHist h => hist_agree h end.
 
 Definition ok (c : case) : bool :=
-  match c with CAcq a => Acq.ok a | CBo k => bo_ok k | CGrad g => grad_ok g end.
+  match c with CAcq a => Acq.ok a | CBo k => bo_ok k | CGrad g => grad_ok g | CHist h => hist_ok h end.
